@@ -374,7 +374,7 @@ pub fn run(run: &Run) {
         "templates whose body is every sequence of 1..={max_len} items from 20 forms {{s <-- e, e --> s, a[0] <-- e, \
          a[i] <-- e, c.in <-- e, cs[i].in <-- e, signal t <-- e, (s,t2) <-- (e,in), (s,_) <-- Sub2()(e), \
          t2 <== Sub()(in <-- e), s <== e, s === e, a[0] === e, signal p <-- e, q <-- in, signal (p,q) <-- (e,in), t2 <== Mul2()(a <-- e, b <-- in), a[n+1] <-- e, a[n-1] === e, a[n+1] === e, s <-- in*in}} x contexts {{top, inside if, \
-         inside for}}, e alternating linear / cubic; plus every sequence of <= 2 items as parallel template and in a file with a main component, every \
+         inside for}} (at length 4 at most one item outside the top context), e alternating linear / cubic; plus every sequence of <= 2 items as parallel template and in a file with a main component, every \
          single item as custom template (with and without main), and a function; non-trivial = body with at least one `<--`"
     ));
     let root = work_dir("c08");
@@ -383,6 +383,10 @@ pub fn run(run: &Run) {
         let n = radix.pow(len as u32);
         par_for(n, 16, |code| {
             let seq = seq_of(code, len);
+            if len >= 4 && seq.iter().filter(|(_, ctx)| *ctx != 0).count() > 1 {
+                // length 4 (thorough): at most one item inside an `if` / `for`
+                return;
+            }
             let case = json!({"kind": "sequence", "len": len, "code": code, "template": 0});
             run.watch(&case);
             let dir = root.join(format!("{:?}", std::thread::current().id()).replace(|c: char| !c.is_ascii_alphanumeric(), ""));
